@@ -824,7 +824,7 @@ func convertToExp(parser *syntax.Parser, split bool, val json.Marshaler,
 				Source: src,
 			}, err
 		}
-		exp, err := parser.ParseValExp(val)
+		exp, err := parser.ParseValExp(mroLiteralFromJson(val))
 		fixExpressionTypes(exp, tname, lookup)
 		return exp, err
 	case LazyArgumentMap:
